@@ -51,6 +51,9 @@ CHECKS = {
     "C10": dict(
         text="Coq theorems: connect is defined by structural recursion on the regenerated retry counters (so it terminates by construction) and for EVERY oracle (silent / wrong frame / undecodable frame at any request) returns after at most 1 + A(1 + chmax R) requests and time-outs with nothing left running unless it succeeded (C10_connect_bounded); the receive routine always returns for every buffer and read sequence (from the C03 refinement: never out of fuel), so the stop flag is observed; once the flag is set the worker finishes within three steps and the join is enabled (C13 model). PARTIAL: real joins, GIL scheduling and wall-clock bounds are covered by the fault-enumeration run (every handshake point x fault kind x once/from-then-on, header residues 1..3 bytes, noise), not proved.",
         design="3/C10", technique="Coq proof (structural termination + explicit bounds for all oracles) + fault enumeration on the real handler", category="proof"),
+    "C16": dict(
+        text="Coq theorems over an object-store model of simulated-device instances (channel objects at locations; an instance owns a list of locations; how the default channel set is obtained is regenerated from DummyDev.__init__): frame rule - any sequence of requests, samples and start/stop cycles on one instance leaves every object of a disjoint instance unchanged; instances built by the constructor own disjoint objects in all default/custom combinations (needs the regenerated constant dummy_default_fresh = true); stop;start empties the read queue and resets every generator of the instance and nothing else. Tie: translator reading of the constructor, pinned skeletons of the generator classes / Device.reset / DummyDev.start/stop (drift = obligation broken), and real pairs of DummyDev (identity checks, B vs a B without neighbour, restart with enabled and with disabled channels, every generator: N samples + reset = fresh sequence).",
+        design="3/C16", technique="Coq proof (frame rule over an object store, induction over operation sequences) + translator-decided aliasing + differential on real instance pairs"),
 }
 PENDING = {}
 
